@@ -47,10 +47,11 @@ func (i *int64Literal) Field(key index.FieldKey) index.Field {
 }
 
 func (i *int64Literal) RangeOpts(isUpper bool, includeLower bool, includeUpper bool) index.RangeOpts {
+	// The side without a literal is unbounded: math.MinInt64 / math.MaxInt64 themselves are in range.
 	if isUpper {
-		return index.NewIntRangeOpts(math.MinInt64, i.int64, includeLower, includeUpper)
+		return index.NewIntRangeOpts(math.MinInt64, i.int64, true, includeUpper)
 	}
-	return index.NewIntRangeOpts(i.int64, math.MaxInt64, includeLower, includeUpper)
+	return index.NewIntRangeOpts(i.int64, math.MaxInt64, includeLower, true)
 }
 
 func (i *int64Literal) SubExprs() []LiteralExpr {
@@ -463,10 +464,11 @@ func (t *timestampLiteral) Field(key index.FieldKey) index.Field {
 
 func (t *timestampLiteral) RangeOpts(isUpper bool, includeLower bool, includeUpper bool) index.RangeOpts {
 	nanos := t.timestamp.AsTime().UnixNano()
+	// The side without a literal is unbounded: math.MinInt64 / math.MaxInt64 themselves are in range.
 	if isUpper {
-		return index.NewIntRangeOpts(math.MinInt64, nanos, includeLower, includeUpper)
+		return index.NewIntRangeOpts(math.MinInt64, nanos, true, includeUpper)
 	}
-	return index.NewIntRangeOpts(nanos, math.MaxInt64, includeLower, includeUpper)
+	return index.NewIntRangeOpts(nanos, math.MaxInt64, includeLower, true)
 }
 
 func (t *timestampLiteral) SubExprs() []LiteralExpr {
